@@ -36,8 +36,9 @@ def _fptr(id, prop, wall):
                 oracle='get_fptr == the owning module\'s table entry, null when no module owns the index or its table is shorter; '
                        'binary_search_module recursion terminates (unwinding assertion); no crash / undefined behaviour',
                 nonterm_is_violation=True,
-                bounds={'quick': {'defs': {'NMOD': 3, 'FMAX': 2, 'WALL': wall}, 'unwind': 6, 'unwindset': {_BSM: 4}, 'cap': 600},
-                        'thorough': {'defs': {'NMOD': 5, 'FMAX': 2, 'WALL': wall}, 'unwind': 8, 'unwindset': {_BSM: 5}, 'cap': 3000}})
+                # nested concrete loops: ll2c's if/else-goto shape never lets CBMC reset an inner loop's counter, so the bound covers the total
+                bounds={'quick': {'defs': {'NMOD': 3, 'FMAX': 2, 'WALL': wall}, 'unwind': 20, 'unwindset': {_BSM: 4}, 'cap': 600},
+                        'thorough': {'defs': {'NMOD': 5, 'FMAX': 2, 'WALL': wall}, 'unwind': 40, 'unwindset': {_BSM: 5}, 'cap': 3000}})
 
 
 HARNESSES += [
@@ -54,8 +55,8 @@ HARNESSES += [
          domain='every history of NMOD modules with index counts in {0,1,2} (3^NMOD histories, concrete), fptr tables of size 0..FMAX',
          oracle='ranges contiguous from 1, disjoint, in request order; registration order; get_fptr == owner\'s pointer or null for every index',
          nonterm_is_violation=True,
-         bounds={'quick': {'defs': {'NMOD': 3, 'FMAX': 2}, 'unwind': 30, 'unwindset': {_BSM: 4, 'll_memmove.0': 40, 'll_memcpy.0': 40}, 'cap': 600},
-                 'thorough': {'defs': {'NMOD': 4, 'FMAX': 2}, 'unwind': 84, 'unwindset': {_BSM: 5, 'll_memmove.0': 40, 'll_memcpy.0': 40}, 'cap': 3000}}),
+         bounds={'quick': {'defs': {'NMOD': 3, 'FMAX': 2}, 'unwind': 300, 'unwindset': {_BSM: 4}, 'cap': 600},
+                 'thorough': {'defs': {'NMOD': 4, 'FMAX': 2}, 'unwind': 1200, 'unwindset': {_BSM: 5}, 'cap': 3000}}),
     {'id': 'c13_request_maps', 'property': 'C13', 'src': 'c13_modules.cxx', 'entry': 'harness_c13_request_maps',
      'tus': [_DB + 'interrogateDatabase.cxx'], 'tuflags': _ASSERTS, 'hflags': _ASSERTS,
      'desc': 'request_module: by-hash registration and lazy-load queue',
